@@ -152,7 +152,7 @@ fn graph_from(shape : &str, mut rules : Vec<GRule>, rng : &mut Rng) -> Graph
 }
 
 pub const SHAPES : &[&str] = &[
-    "chain", "diamond", "triangle", "fan_in", "fan_out", "components", "twins", "second_target", "wide_multi", "k4", "copies",
+    "chain", "diamond", "triangle", "fan_in", "fan_out", "components", "twins", "second_target", "wide_multi", "k4", "copies", "two_of_one",
 ];
 
 pub fn preset_graph(rng : &mut Rng, shape : &str) -> Graph
@@ -316,6 +316,21 @@ pub fn preset_graph(rng : &mut Rng, shape : &str) -> Graph
                     rules.push(make_rule(rng, vec![n[count + i].clone()], vec![n[i].clone()], &mut salt));
                 }
             }
+            graph_from(shape, rules, rng)
+        },
+        "two_of_one" =>
+        {
+            // a rule that uses two targets of one multi-target rule (two tickets from the same producer), and a rule after
+            // it that also has a leaf of its own: when only the second target changes the middle rule must still notice
+            let n = names(rng, 4);
+            let l = leafs(rng, 3);
+            let mut first = make_rule(rng, vec![n[0].clone(), n[1].clone()], vec![l[0].clone(), l[1].clone()], &mut salt);
+            first.outs[0].mask = 1; first.outs[1].mask = 2;
+            let rules = vec![
+                first,
+                make_rule(rng, vec![n[2].clone()], vec![n[0].clone(), n[1].clone()], &mut salt),
+                make_rule(rng, vec![n[3].clone()], vec![n[2].clone(), l[2].clone()], &mut salt),
+            ];
             graph_from(shape, rules, rng)
         },
         "second_target" =>
